@@ -273,7 +273,7 @@ def rule_roles(f, R, splits, letters_residue_by_split, body_kind):
         body_var = loopvar[res2var[su.groups]]
         ok = False
         for n in ast.walk(fn):
-            if isinstance(n, ast.Call) and isinstance(n.func, ast.Attribute) and n.func.attr == "split" and \
+            if isinstance(n, ast.Call) and isinstance(n.func, ast.Attribute) and n.func.attr in ("split", "splitlines") and \
                     isinstance(n.func.value, ast.Name) and n.func.value.id == body_var:
                 ok = True
             if isinstance(n, ast.Call) and dotted(n.func) == "re.split" and len(n.args) > 1 and \
@@ -378,6 +378,55 @@ def rule_p3(f, R):
     if n_float < 2:
         raise AnalysisError("P3", f"expected >= 2 float() conversions in {f.qualname}, found {n_float}", f.where())
     return [p for _c, p in rows]
+
+
+def rule_p9(f, R):
+    """Row completeness: the row pattern is applied to every line of the record's text - the loop iterates the complete
+    `.split("\\n")` / `.splitlines()` of the text (no prefix, stride or count taken from the header), and a line that does
+    not match is skipped with `continue` (never ends the loop)."""
+    fn = f.node
+    D = Defs(fn)
+    n = 0
+    for c, _pat in row_patterns(f):
+        chain = enclosing_stmt_chain(fn, c)
+        loops = [st for st in chain if isinstance(st, ast.For)]
+        if not loops:
+            raise AnalysisError("P9", "row pattern is not applied inside a loop over lines", f.where(c))
+        loop = loops[-1]
+        if not (isinstance(loop.target, ast.Name) and len(c.args) >= 2 and ast.unparse(c.args[1]) == loop.target.id):
+            raise AnalysisError("P9", "row loop idiom not recognised (pattern not applied to the loop variable)", f.where(c))
+        it = loop.iter
+        seen = []
+        while isinstance(it, ast.Name):
+            # resolve through rebindings `x = x.split(...)` / `lines = text.split(...)`: the binding that reaches the loop
+            cands = [st for st in ast.walk(fn) if isinstance(st, ast.Assign) and len(st.targets) == 1 and isinstance(st.targets[0], ast.Name)
+                     and st.targets[0].id == it.id and st.lineno < loop.lineno and st not in seen]
+            if not cands:
+                break
+            st = max(cands, key=lambda x: x.lineno)
+            seen.append(st)
+            it = st.value
+        text = ast.unparse(it)
+        full = isinstance(it, ast.Call) and isinstance(it.func, ast.Attribute) and (
+            (it.func.attr == "split" and len(it.args) == 1 and const_str(it.args[0]) == "\n" and not it.keywords)
+            or (it.func.attr == "splitlines" and not it.args))
+        partial = isinstance(it, ast.Subscript) or (isinstance(it, ast.Call) and isinstance(it.func, ast.Attribute) and it.func.attr == "split"
+                                                    and (len(it.args) > 1 or it.keywords))
+        if not full and not partial:
+            raise AnalysisError("P9", f"lines of a record come from `{text[:60]}`: idiom not recognised", f.where(loop))
+        R.check(full, "P9", f.site, f"row loop over {text[:60]}",
+                "the row loop examines only part of the record's lines (a prefix / count / stride): rows beyond it are dropped "
+                "silently, e.g. when comment or blank lines sit between the primitives", where=f.where(loop),
+                expected="every line of the record text: text.split('\\n')", found=text[:80])
+        # non-matching lines are skipped, not terminating
+        exits = [x for x in ast.walk(loop) if isinstance(x, (ast.Break, ast.Return))]
+        inner_loops = [x for x in ast.walk(loop) if isinstance(x, (ast.For, ast.While)) and x is not loop]
+        exits = [x for x in exits if not any(x in ast.walk(il) for il in inner_loops)]
+        R.check(not exits, "P9", f.site, "non-matching line skipped with continue",
+                "the row loop can end early (break/return): rows after a non-matching line would be lost", where=f.where(exits[0] if exits else loop),
+                expected="continue", found=[type(x).__name__ for x in exits])
+        n += 1
+    return n
 
 
 def rule_p5_producer(f, R):
@@ -735,6 +784,7 @@ def run(repo, R):
     R.rule("P5", "record layout (angmom, exps, coeffs) agrees between producers, consumer and constructor parameters; column i <-> letter i")
     R.rule("P6", "shells are built atom-major in the given order with that atom's coordinate row and index")
     R.rule("P7", "each shell receives the next coordinate type in construction order (iterator/running index, never per-atom)")
+    R.rule("P9", "every line of a record's text is tried against the row pattern (complete split, non-matching lines skipped with continue)")
     R.rule("P8", "operations on coord_types stay within the Sequence protocol (list or tuple accepted, nothing consumed)")
     R.rule("PYSCF", "from_pyscf unpacks [l, [exp, c1, c2...], ...] records: l, column 0, columns 1:, per atom in _atom order")
     R.rule("E1", "the import functions do not mutate their arguments (EFFECTS)")
@@ -761,6 +811,9 @@ def run(repo, R):
     rp = rule_p3(nw, R) + rule_p3(gbs, R)
     R.check(len(set(rp)) == 1, "P3", "parsers", "row patterns equal",
             "parse_nwchem and parse_gbs use different number-row patterns", expected=rp[0], found=sorted(set(rp)))
+    n9 = rule_p9(nw, R) + rule_p9(gbs, R)
+    if n9 < 2:
+        raise AnalysisError("P9", f"expected a row loop in each parser, found {n9}")
     rule_p5_producer(nw, R)
     rule_p5_producer(gbs, R)
     rule_make_contractions(repo, mk, R)
